@@ -9,6 +9,15 @@ SCHED_TIE = ["h_sched_Schedule", "h_sched_isReady", "h_sched_Status", "h_sched_S
              "pred_isFinished", "pred_isSucceed", "pred_runningCount", "nodeSignalSkeleton", "signalSkeleton"]
 
 
+def _all_sched_ties():
+    import re
+    p = os.path.join(common.LEAN, "BdModel", "Tie", "Sched.lean")
+    return re.findall(r"^theorem tie_(\w+) ", open(p).read(), re.M) if os.path.exists(p) else SCHED_TIE
+
+
+SCHED_TIE = _all_sched_ties()
+
+
 def gen_case(rng, k, maxn):
     n = rng.randint(1, maxn)
     order = list(range(n)); rng.shuffle(order)
